@@ -348,10 +348,12 @@ Fixpoint convert_expr (mi : module_info) (known : list sym) (cmc : list ident) (
       | None => (ELetRec name b' None, er1)
       end
   | ELet pat body then_ =>
+      (* only the initialiser is converted in the module context of the pattern; the context is restored
+         (`ctx.current_module_context = prev_context`) before the continuation is converted, as for LetRec *)
       let cmc1 := match find_pattern_module_context mi pat with Some c => c | None => cmc end in
       let (b', er1) := convert_expr mi known cmc1 locals body in
       match then_ with
-      | Some t => let (t', er2) := convert_expr mi known cmc1 (pat :: locals) t in (ELet pat b' (Some t'), er1 ++ er2)
+      | Some t => let (t', er2) := convert_expr mi known cmc (pat :: locals) t in (ELet pat b' (Some t'), er1 ++ er2)
       | None => (ELet pat b' None, er1)
       end
   | ELam ps body =>
